@@ -55,7 +55,24 @@ ZONED = C.Kind("calc_duration_zoned", impl=_impl_zoned, model=lambda a: f"calcdu
 
 import props.c10 as _c10  # noqa: E402  (the duration a LISTED schedule reports goes through the same rule)
 
-KINDS = {"calc_duration": PAIR, "calc_duration_text": TEXT, "calc_duration_zoned": ZONED, "get_schedules": _c10.LIST}
+
+
+def _durations_only(out):
+    """of a listed-schedules observation, what C14 is about: per record its id, start, end and the duration reported"""
+    if not out.startswith("ok ") or out[3:] == "-":
+        return out.split(" ", 1)[0]
+    rows = []
+    for row in out[3:].split(";"):
+        sid, _rec, _days, start, stop, dur, _disp = _c10._fields(row)
+        rows.append((sid, start, stop, dur))
+    return "ok " + ";".join(",".join(r) for r in sorted(rows))
+
+
+LISTD = C.Kind("listed-durations", impl=_c10.LIST.impl, model=_c10.LIST.model,
+               judge=lambda a, o: [j for j in _c10.LIST.judge(a, o) if j[0].startswith("c14 ")],
+               compare=lambda m, i: _durations_only(m) == _durations_only(i),
+               classify=_c10.LIST.classify, nontrivial=_c10.LIST.nontrivial, shrink=_c10.LIST.shrink)
+KINDS = {"calc_duration": PAIR, "calc_duration_text": TEXT, "calc_duration_zoned": ZONED, "listed-durations": LISTD}
 
 
 def _zoned_cases(rng, per_zone_instants, pairs_per_instant):
@@ -112,7 +129,7 @@ def streams(ctx):
         for now in Z.interesting_instants(rng, zone, ctx.n(6, 60)):
             recs = _c10.gen_recs(rng, now)
             lst.append({"zone": zone, "now": now, "recs": recs, "reply": _c10.build_reply(recs, rng)})
-    ctx.run_cases(_c10.LIST, "durations-of-listed-schedules", lst, exhaustive=False, sample_every=max(1, len(lst) // 2))
+    ctx.run_cases(LISTD, "durations-of-listed-schedules", lst, exhaustive=False, sample_every=max(1, len(lst) // 2))
     ctx.run_cases(TEXT, "spellings-and-malformed", _texts(rng, ctx.n(2000, 20000)), exhaustive=False, sample_every=500)
 
 
